@@ -88,6 +88,15 @@ def gen(rng, idx, tier):
             extra.append("sup" + str(len(extra)))
         else:
             extra.append(base + ".alt")
+    sups = [nm for nm in extra if nm.startswith("sup")]
+    if sups and rng.random() < 0.7:
+        # ligatures mixing BMP and supplementary-plane parts (uniXXXX_uXXXXX, never one uni... run)
+        for _ in range(rng.randint(1, 2)):
+            parts = [rng.choice(names), rng.choice(sups)]
+            if rng.random() < 0.4:
+                parts.append(rng.choice(names + sups))
+            rng.shuffle(parts)
+            extra.append("_".join(parts))
     for nm in extra:
         if nm not in glyphs:
             g = {"unicodes": []}
